@@ -93,6 +93,9 @@ func (k *kase) oracleStep(ev string) {
 		for i, u := range c.h.Upstreams {
 			o := c.objs[i]
 			wantHealthy := !c.st.p || live[o] < c.maxFails
+			if c.st.areal && c.adown[i] {
+				wantHealthy = false // the active checker holds it down
+			}
 			if u.Healthy() != wantHealthy {
 				k.fail("healthy-disagrees-with-window", fmt.Sprintf("after %q: upstream %d Healthy()=%v but %d failures in window, max_fails %d", ev, i, u.Healthy(), live[o], c.maxFails))
 			}
